@@ -32,7 +32,7 @@ REPORT = [['-L'], ['-l'], ['-OLIST', 'out.lst'], ['-u', '-L'], ['-C', '-L'], ['-
           ['-x'], ['-x', '-x'], ['-n'], ['-A'], ['-r'], ['-E', 'err.log'], ['-gnuerrors'],
           ['-LISTRADIX', '2', '-L'], ['-LISTRADIX', '8', '-L'], ['-LISTRADIX', '10', '-L'], ['-LISTRADIX', '36', '-L'], ['-P'], ['-M'], ['-h', '-L'], ['-SPLITBYTE', '.', '-L'],
           ['-u'], ['-C'], ['-s'], ['-I'], ['-t', '255']]
-ENVDEV = ['carrier:ASCMD', 'carrier:keyfile', 'carrier:keyfile-nonl', 'carrier:keyfile-oneline', 'carrier:keyfile-longline', 'cwd:other', 'opath', 'lang:de_DE', 'lang:en_US', 'LANG:de_DE.UTF-8', 'noq',
+ENVDEV = ['srcpath:dot-slash', 'srcpath:dot-slash-nosuffix', 'srcpath:dotted-dir', 'carrier:ASCMD', 'carrier:keyfile', 'carrier:keyfile-nonl', 'carrier:keyfile-oneline', 'carrier:keyfile-longline', 'cwd:other', 'opath', 'lang:de_DE', 'lang:en_US', 'LANG:de_DE.UTF-8', 'noq',
           'ipath:add-remove', 'ipath:list-form', 'opath+olist-cleared']    # an include directory added and taken away again; the directories given as one list
 NO_Q_OK = True
 
@@ -136,6 +136,16 @@ def runcfg(t, devl):
             cwd = core.workdir()
             src = 'src/' + t + '.asm'
             out = 'src/' + t + '.p'
+        elif v == 'srcpath:dot-slash':
+            src = './' + t + '.asm'                          # the code file goes next to the source, under the source's name
+        elif v == 'srcpath:dot-slash-nosuffix':
+            src = './' + t                                    # .asm is the default suffix
+        elif v == 'srcpath:dotted-dir':
+            cwd = core.workdir()
+            if not os.path.exists(os.path.join(cwd, 'src.d')):
+                os.symlink('src', os.path.join(cwd, 'src.d'))
+            src = 'src.d/' + t + '.asm'
+            out = 'src.d/' + t + '.p'
         elif v == 'opath+olist-cleared':
             out = 'elsewhere.p'       # -o together with a listing name that is set and taken back again
         elif v == 'opath':
